@@ -208,6 +208,8 @@ package alephium
 //@   at [w.msgChan <- e.event.msg.toMessagePublication(e.header)]: assert [only-token-bridge-sender] e.event.msg.senderId == w.tokenBridgeContractId && e.event.EventIndex == 0
 //@   loop [range confirmed]:
 //@     iter-ensures [at-most-one-message-per-event] nsent(w.msgChan) <= old(nsent(w.msgChan)) + 1
+//@     iter-ensures [token-bridge-message-handed-over] e.event.EventIndex == 0 && e.event.msg.senderId == w.tokenBridgeContractId ==> nsent(w.msgChan) == old(nsent(w.msgChan)) + 1 && lastsent(w.msgChan).Sequence == e.event.msg.Sequence && lastsent(w.msgChan).Payload == e.event.msg.payload && unix(lastsent(w.msgChan).Timestamp) == e.header.Timestamp / 1000
+//@     iter-ensures [foreign-message-not-handed-over] e.event.msg.senderId != w.tokenBridgeContractId ==> nsent(w.msgChan) == old(nsent(w.msgChan))
 
 // wfEvent / wfPending: shape of the pending table (events carry their decoded message)
 //@ pred wfEvent(e *UnconfirmedEvent) = e != nil && allocated(e) && e.msg != nil && allocated(e.msg) && e.ContractEvent != nil && allocated(e.ContractEvent)
